@@ -337,6 +337,66 @@ def rule_xy_unclamped(ctx):
             ctx.ok(rid, "unlimited:%s" % f.path, "no clamp/min/max in the slice of the coordinates", nontrivial=True, fn=f)
 
 
+def rule_tf_sign(ctx):
+    """the two directions of each transfer curve treat negative samples alike"""
+    import re
+    rid = "R-TF-SIGN"
+    ctx.rule(rid, "each transfer curve comes as a pair linear_to_X / X_to_linear (scalar bodies; `_generic` helpers for PQ).  The inverse of "
+                  "an odd function is odd, the inverse of a curve that extends its toe segment through the negatives does the same: the "
+                  "two scalar bodies of a pair must agree on whether they are sign-aware (call abs / copysign / signum / is_sign_* or negate "
+                  "an f32) - otherwise encode-then-decode is not the identity on negative samples, which "
+                  "out-of-gamut colours produce.  Sibling agreement over the pairs found by name in jxl_color::tf; SIMD bodies "
+                  "(target_feature functions, intrinsics) are not read")
+    cr = ctx.prog.crate("jxl_color")
+    fns = {}
+    for f in cr.fn_list:
+        if f.path.startswith("jxl_color::tf::") and f.kind == "Fn" and not f.tf:
+            fns[f.path.split("::")[-1]] = f
+    pairs = []
+    for n, f in sorted(fns.items()):
+        m = re.match(r"^linear_to_([a-z0-9]+?)(_generic)?$", n)
+        if m:
+            inv = "%s_to_linear%s" % (m.group(1), m.group(2) or "")
+            if inv in fns:
+                pairs.append((m.group(1) + (m.group(2) or ""), f, fns[inv]))
+    ctx.count(rid + ".pairs", len(pairs))
+
+    def sign_aware(f, depth=0):
+        ev = []
+        for b, t in f.calls():
+            c = callee(t)
+            if not c:
+                continue
+            last = c["fn"].split("::")[-1]
+            g = cr.fns.get(c["fn"])
+            if g is not None and depth < 2 and g.path.startswith("jxl_color::tf::") and not g.tf and g is not f:
+                ev.extend(sign_aware(g, depth + 1))
+            if ("f32" in c["fn"] or "f64" in c["fn"]) and last in ("abs", "copysign", "signum", "is_sign_negative", "is_sign_positive"):
+                ev.append(last)
+        for blk in f.blocks:
+            if blk[2]:
+                continue
+            for st in blk[0]:
+                if st[0] == "=" and st[2][0] == "un" and st[2][1] == "Neg":
+                    p = op_place(st[2][2])
+                    if p is not None and f.local_ty(p[0]) in ("f32", "f64"):
+                        ev.append("neg")
+        return sorted(set(ev))
+
+    for x, f, g in pairs:
+        ctx.seen(f)
+        ctx.seen(g)
+        a, b = sign_aware(f), sign_aware(g)
+        if bool(a) == bool(b):
+            ctx.ok(rid, "pair:%s" % x, "both directions %s" % ("sign-aware (%s / %s)" % (",".join(a), ",".join(b)) if a else "extend the toe segment (no sign handling)"),
+                   nontrivial=True, fn=f)
+        else:
+            h = g if b else f
+            ctx.bad(rid, "pair:%s" % x, "%s handles the sign of the sample (%s) and %s does not: the two directions are not inverse on negative "
+                    "samples" % (h.path.split("::")[-1], ",".join(a or b), (f if b else g).path.split("::")[-1]), fn=h)
+    ctx.floor(rid + ".pairs", 4)
+
+
 def main(pid, tier, repo=None):
     ctx = Ctx(pid, tier, configs=("workspace",), repo=repo)
     specconst.run(ctx, pid, floor=20)
@@ -344,6 +404,7 @@ def main(pid, tier, repo=None):
     enummap.run(ctx, pid)
     rule_cicp_layout(ctx)
     rule_xy_unclamped(ctx)
+    rule_tf_sign(ctx)
     ctx.not_decided("numerical tolerance statements over real-valued functions: that the synthesised profile parses back to an equivalent "
                     "encoding for custom chromaticities and arbitrary gamma, that each transfer function's two directions compose to the "
                     "identity and are monotone, no-op detection of equivalent encodings")
